@@ -113,17 +113,17 @@ type run struct {
 	mode  settleMode
 	dir   string
 
-	mu    sync.Mutex
-	txs   map[string]*transaction.Transaction // good copies by name
-	bad   map[string]*transaction.Transaction
-	fake  map[string]util.Uint256
-	exts  map[string]*payload.Extensible
-	reqs  map[[2]int]*reqInfo // (height, view) -> the proposal (crafted or the node's own)
-	owns  map[string]*payload.Extensible
-	copies map[util.Uint256][]xcopy
-	resps  map[[3]int]bool // (height, view, validator): a valid PrepareResponse was crafted
+	mu       sync.Mutex
+	txs      map[string]*transaction.Transaction // good copies by name
+	bad      map[string]*transaction.Transaction
+	fake     map[string]util.Uint256
+	exts     map[string]*payload.Extensible
+	reqs     map[[2]int]*reqInfo // (height, view) -> the proposal (crafted or the node's own)
+	owns     map[string]*payload.Extensible
+	copies   map[util.Uint256][]xcopy
+	resps    map[[3]int]bool    // (height, view, validator): a valid PrepareResponse was crafted
 	byHeight map[int][]namedExt // valid payloads of the fake validators by dBFT height
-	fed    int
+	fed      int
 }
 
 type namedExt struct {
@@ -286,7 +286,6 @@ func (r *run) craft(n *node, s Step) *payload.Extensible {
 		}
 		nonce := uint64(0x1900 + len(r.exts))
 		body = r.w.prepareRequestBody(prev, ts, nonce, hs, root)
-		defer func(e **payload.Extensible) {}(nil)
 		ri := &reqInfo{ts: ts, nonce: nonce, txs: hs, primary: s.From, prev: prev, root: root}
 		e := r.w.ext(s.From, msgBytes(typ, uint32(h), s.From, byte(s.View), body), uint32(h), s.Kind, cur)
 		ri.hash = e.Hash()
@@ -570,7 +569,7 @@ func (r *run) step(s Step) error {
 		}
 		p.mu.Lock()
 		for _, t := range s.T {
-			if tx := r.txLocked(t, s.Bad); tx != nil {
+			if tx := r.tx(t, s.Bad); tx != nil {
 				p.txs[tx.Hash()] = tx
 				p.txBad[tx.Hash()] = s.Bad
 			}
@@ -596,6 +595,30 @@ func (r *run) step(s Step) error {
 				p.sendTx(tx, "push", !s.Bad)
 			}
 		}
+	case "raw":
+		// wire-level garbage on a connection of its own: the node may (and does) hang up; it must not crash
+		p := r.peers[s.P]
+		if p == nil || !p.alive() {
+			return nil
+		}
+		var b []byte
+		switch s.Kind {
+		case "trunc": // an extensible message whose payload ends in the middle
+			e := r.w.ext(1, msgBytes(tCommit, 1, 1, 0, make([]byte, 64)), 1, "", 0)
+			m, _ := network.NewMessage(network.CMDExtensible, e).BytesCompressed(false)
+			b = append([]byte(nil), m[:len(m)/2]...)
+			b[2] = byte(len(b) - 3) // (declared length = what is there)
+		case "longcat": // category longer than the protocol allows
+			e := r.w.ext(1, msgBytes(tCommit, 1, 1, 0, make([]byte, 64)), 1, "", 0)
+			e.Category = "dBFT-dBFT-dBFT-dBFT-dBFT-dBFT-dBFT-dBFT-dBFT"
+			b, _ = network.NewMessage(network.CMDExtensible, e).BytesCompressed(false)
+		case "emptyinv":
+			b, _ = network.NewMessage(network.CMDInv, payload.NewInventory(payload.ExtensibleType, nil)).BytesCompressed(false)
+		default: // unknown command, random body
+			b = []byte{0, 0xee, 5, 1, 2, 3, 4, 5}
+		}
+		p.emit(map[string]any{"event": "s", "m": "raw", "kind": s.Kind, "len": len(b)})
+		_ = p.c.sendRaw(b)
 	case "timeout":
 		n := r.nodeOf(s)
 		if n == nil || n.timer == nil {
@@ -693,8 +716,6 @@ func (r *run) step(s Step) error {
 	}
 	return nil
 }
-
-func (r *run) txLocked(name string, bad bool) *transaction.Transaction { return r.tx(name, bad) }
 
 // fetchBlock asks node for block I over connection P (getdata by hash, or getblockbyindex), and offers what comes back - in
 // its wire form - to the reference ledger (every other node's ledger).
